@@ -709,6 +709,13 @@ class FSInterp(ResultInterp):
             return super().compare(op, l, r, node)
         if isinstance(l, PathV) and isinstance(r, PathV) and isinstance(op, (ast.Eq, ast.NotEq)):
             return (l.s == r.s) if isinstance(op, ast.Eq) else (l.s != r.s)
+        # lock objects are compared by identity
+        if isinstance(l, LockV) and isinstance(op, (ast.In, ast.NotIn)) and isinstance(r, (list, tuple, set)):
+            res = any(x is l for x in r)
+            return res if isinstance(op, ast.In) else not res
+        if isinstance(l, LockV) and isinstance(r, LockV) and isinstance(op, (ast.Is, ast.IsNot, ast.Eq, ast.NotEq)):
+            res = l is r
+            return res if isinstance(op, (ast.Is, ast.Eq)) else not res
         return super().compare(op, l, r, node)
 
     def binop_hook(self, op, l, r, node):
